@@ -147,6 +147,7 @@ func c02R3(c *Ctx, rule string) {
 	engine.EachInstr(fn, func(in ssa.Instruction) {
 		if ifi, ok := in.(*ssa.If); ok {
 			cd := c.P.CondOf(ifi.Cond)
+			cd, _ = cd.WithY(func(d string) bool { return d == "p1" })
 			if cd.IsRel && cd.Y == "p1" && cd.EdgeOrd(true) == engine.LT|engine.EQ {
 				if ph, ok := cd.XV.(*ssa.Phi); ok {
 					idx, hdr = ph, ifi
@@ -190,7 +191,7 @@ func c02R3(c *Ctx, rule string) {
 		engine.PredCond("pending", func(cd engine.Cond) (bool, int) {
 			if cd.IsRel && strings.HasPrefix(cd.X, "len(") && cd.Y == "0" && strings.Contains(cd.X, "commitTuple") {
 				s := cd.EdgeOrd(true)
-				if s == engine.LT|engine.GT || s == engine.GT {
+				if isNEc(cd) {
 					return true, engine.True
 				}
 				if s == engine.EQ {
@@ -218,7 +219,7 @@ func c02R3(c *Ctx, rule string) {
 	prepared := engine.PredCond("prepared", func(cd engine.Cond) (bool, int) {
 		if cd.IsRel && strings.Contains(cd.X, "recv.prepareLog(") && cd.Y == "nil" {
 			s := cd.EdgeOrd(true)
-			if s == engine.LT|engine.GT {
+			if isNE(s) {
 				return true, engine.True
 			}
 			if s == engine.EQ {
@@ -308,6 +309,7 @@ func c02R4(c *Ctx, rule string) {
 					return cc != nil && c.P.CalleeName(cc) == "(*raftState).setCommitIndex" && c.P.Arg(in, 0) == commit
 				}),
 				engine.PredCond("beyond", func(cd engine.Cond) (bool, int) {
+					cd, _ = cd.WithY(func(d string) bool { return d == commit })
 					if cd.IsRel && strings.HasSuffix(cd.X, ".log.Index") && cd.Y == commit {
 						s := cd.EdgeOrd(true)
 						if s == engine.GT {
@@ -322,7 +324,7 @@ func c02R4(c *Ctx, rule string) {
 				engine.PredCond("ready", func(cd engine.Cond) (bool, int) {
 					if cd.IsRel && strings.HasPrefix(cd.X, "len(") && strings.Contains(cd.X, "list.Element") && cd.Y == "0" {
 						s := cd.EdgeOrd(true)
-						if s == engine.LT|engine.GT {
+						if isNEc(cd) {
 							return true, engine.True
 						}
 						if s == engine.EQ {
